@@ -67,6 +67,8 @@ struct System {
   // families of like parameters inside which zero sets of any size are explored (default: amplitudes X_d that have a frequency a_Xd, and those frequencies)
   std::function<std::vector<std::vector<std::string>>(const std::vector<std::string>&)> zero_families;
   bool pointwise_admissibility;  // an inadmissible (assignment, point) pair drops only that point, not the whole assignment
+  int singular_axis = -1;  // coordinate whose zero plane is outside the domain (r = 0 of the axisymmetric solutions): no boundary point there
+  bool no_boundary_points = false;  // do not append the per-assignment boundary points (coordinate = length parameter, coordinate planes)
   bool base_from_default;  // base = library defaults x distinct factors in (1, 1.07) instead of the generic base
   int max_dev_quick, max_dev_thorough;
   System() : dim(1), pointwise_admissibility(false), base_from_default(false), max_dev_quick(1), max_dev_thorough(2) {}
